@@ -21,7 +21,8 @@ def scenario(pattern, unused_equal=False):
     vs = []
     for i, s in enumerate(pattern):
         a, b = AB[i]
-        k = {-1: 0.5 + 0.25 * i, 0: 0.0, 1: -0.75 - 0.25 * i}[s]
+        # 'on' corners: exactly on the plane, or inside the 1e-8 band on either side (offset 2^-30 * |n|^2 = 4.9e-9)
+        k = {-1: 0.5 + 0.25 * i, 0: [2.0 ** -30, 0.0, -2.0 ** -30][i], 1: -0.75 - 0.25 * i}[s]
         if unused_equal and s != 0:
             k = 0.5 if s == -1 else -0.75  # equal offsets: the denominator of the edge between them is exactly 0
         vs.append([REF[j] + a * T1[j] + b * T2[j] + k * NRM[j] for j in range(3)])
